@@ -402,7 +402,7 @@ func run(c *vf.Ctx) {
 		for lo := 0; lo < len(list); lo += chunk {
 			lo := lo
 			spawn(func() {
-				res := runChild(c, vf.ChildOpts{Name: "gated", Args: []string{strconv.Itoa(lo), strconv.Itoa(lo + chunk)}, Timeout: 4 * time.Minute})
+				res := runChild(c, vf.ChildOpts{Name: "gated", Args: []string{strconv.Itoa(lo), strconv.Itoa(lo + chunk)}, Timeout: 15 * time.Minute})
 				if res.TimedOut || res.ExitCode != 0 {
 					childDied(c, fmt.Sprintf("gated child [%d,%d)", lo, lo+chunk), res)
 				}
@@ -425,7 +425,7 @@ func run(c *vf.Ctx) {
 	for lo := 0; lo < nGroup; lo += 100 {
 		lo := lo
 		spawn(func() {
-			res := runChild(c, vf.ChildOpts{Name: "group", Args: []string{strconv.Itoa(lo), strconv.Itoa(min(lo+100, nGroup))}, Timeout: 4 * time.Minute})
+			res := runChild(c, vf.ChildOpts{Name: "group", Args: []string{strconv.Itoa(lo), strconv.Itoa(min(lo+100, nGroup))}, Timeout: 15 * time.Minute})
 			if res.TimedOut || res.ExitCode != 0 {
 				childDied(c, fmt.Sprintf("group child [%d..)", lo), res)
 			}
@@ -440,7 +440,7 @@ func run(c *vf.Ctx) {
 				if race {
 					mode = "race"
 				}
-				res := runChild(c, vf.ChildOpts{Name: "stress", Args: []string{strconv.Itoa(lo), strconv.Itoa(min(lo+per, n)), mode}, Race: race, Timeout: 6 * time.Minute})
+				res := runChild(c, vf.ChildOpts{Name: "stress", Args: []string{strconv.Itoa(lo), strconv.Itoa(min(lo+per, n)), mode}, Race: race, Timeout: 20 * time.Minute})
 				reportRaces(c, res.Races)
 				switch {
 				case res.Deadlock:
@@ -486,7 +486,7 @@ func run(c *vf.Ctx) {
 				b, _ := json.Marshal(cfg)
 				var res vf.ChildResult
 				for try := 0; try < 4 && !res.Deadlock; try++ { // the worker's select between shutdown signal and task is random: a schedule need not hang every time
-					res = runChild(c, vf.ChildOpts{Name: "confirm", Args: []string{string(b)}, Timeout: 2 * time.Minute})
+					res = runChild(c, vf.ChildOpts{Name: "confirm", Args: []string{string(b)}, Timeout: 10 * time.Minute})
 				}
 				var pre *outcome
 				var steps []string
